@@ -142,4 +142,49 @@ def World.intersects (W : World σ κ) (self shape : σ) : Bool :=
     | none => W.intersectsShape self shape   -- not reachable: `None` is falsy
   else W.intersectsShape self shape
 
+/-! ### the in-place time mutators (`buffer_dt`, `strip_dt`, `set_dt`) and what a shape remembers
+
+The only time state of a shape is its `dt` attribute, and a `TimeInterval` is never modified after its
+construction (every mutator installs a *new* interval).  Hence an operation history is a fold over
+`Option TI`, and every later answer is a function of the current value alone. -/
+
+/-- `buffer_dt`:
+```
+if not self.dt: raise ValueError(...)
+dt = self.dt;  shp = self if inplace else self.copy()
+shp.dt = TimeInterval(dt.start-buffer, dt.end+buffer)     # the constructor raises when end < start
+``` -/
+def bufferDt (dt : Option TI) (b : Int) : Except String (Option TI) :=
+  if !truthy dt then .error "ERR:Value" else
+  match dt with
+  | some t =>
+    match TI.mk? (t.start - b) (t.stop + b) with
+    | .ok r => .ok (some r)
+    | .error e => .error e
+  | none => .error "ERR:Value"
+
+/-- `strip_dt`: `shape.dt = None` -/
+def stripDt (_ : Option TI) : Option TI := none
+
+/-- one time mutator call -/
+inductive Mut where
+  | setDt (a : DtArg)
+  | bufferDt (b : Int)
+  | stripDt
+
+/-- the `dt` of the mutated object (the receiver for `inplace=True`, the returned copy otherwise); an
+    exception leaves everything as it was -/
+def applyMut (dt : Option TI) : Mut → Except String (Option TI)
+  | .setDt a => setDt a
+  | .bufferDt b => bufferDt dt b
+  | .stripDt => .ok (stripDt dt)
+
+/-- a whole history; calls that raise are skipped (the object keeps its bounds) -/
+def applyMuts (dt : Option TI) : List Mut → Option TI
+  | [] => dt
+  | m :: ms =>
+    match applyMut dt m with
+    | .ok d => applyMuts d ms
+    | .error _ => applyMuts dt ms
+
 end GV.ST
